@@ -226,7 +226,19 @@ func legalCode(c codes.Code, sent map[uint32]bool) (ok bool, passthrough bool) {
 
 func runTransport(t *testing.T, p Plan) outcome {
 	out := outcome{classes: map[string]bool{}}
-	msg := vk.Bubble(t, func(t *testing.T) {
+	var msg string
+	guarded("transport", func() { msg = bubbleTransport(t, p, &out) })
+	if out.violation == "" && msg != "" {
+		out.violation = "after Close the bubble did not drain (goroutine leak) or a bubble goroutine panicked: " + msg
+	} else if msg != "" && !strings.Contains(msg, "deadlock") {
+		out.violation += " || " + msg
+	}
+	return out
+}
+
+func bubbleTransport(t *testing.T, p Plan, outp *outcome) string {
+	out := outp
+	return vk.Bubble(t, func(t *testing.T) {
 		opts := transport.ConnectOptions{StaticWindowSize: p.Static}
 		if p.MaxHdr > 0 {
 			v := uint32(p.MaxHdr)
@@ -251,6 +263,7 @@ func runTransport(t *testing.T, p Plan) outcome {
 		var wg sync.WaitGroup
 		for _, st := range p.Script {
 			out.steps++
+			bump()
 			switch st.K {
 			case kRPC:
 				if st.N < 0 || st.N >= len(p.RPCs) || recs[st.N] != nil {
@@ -374,12 +387,6 @@ func runTransport(t *testing.T, p Plan) outcome {
 			wg.Wait()
 		}
 	})
-	if out.violation == "" && msg != "" {
-		out.violation = "after Close the bubble did not drain (goroutine leak) or a bubble goroutine panicked: " + msg
-	} else if msg != "" && !strings.Contains(msg, "deadlock") {
-		out.violation += " || " + msg
-	}
-	return out
 }
 
 func toResult(out outcome) vk.Result {
